@@ -56,7 +56,7 @@ func runC16(c *Ctx) {
 	r.Rule("O-1", "keep-newest trim: every append to Entries in AddEntry is followed on all paths by `len(Entries) > MaxSize` whose true branch stores Entries[len(Entries)-MaxSize:] (suffix, open high bound) back; no other store to Entries")
 	r.Rule("O-2", "the decoded MaxSize is validated before it is used as a slice bound: at the trim MaxSize >= 0 is established on every path (guard or default in AddEntry, or re-validation after every decode)")
 	r.Rule("O-3", "duplicate collapse: the append is unreachable when Entries[len-1].Query == query; that branch overwrites the last element with the new entry and returns; the index is guarded by len > 0; the entry records the query and result count given")
-	r.Rule("O-4", "round trip: Save marshals and Load unmarshals the receiver; Entries, MaxSize and the SearchEntry fields are exported with distinct json keys, FilePath is json:\"-\"; a failed read or decode is returned as an error")
+	r.Rule("O-4", "round trip: Save marshals and Load unmarshals the receiver; every success exit of Save lies behind the write of the file (a skip is decided only by a modified flag that every change of the log sets); Entries, MaxSize and the SearchEntry fields are exported with distinct json keys, FilePath is json:\"-\"; a failed read or decode is returned as an error")
 	r.Rule("O-5", "views: frequency and unique tables count each entry exactly once per iteration over Entries; TotalSearches is len(Entries); GetRecentQueries walks from len-1 down by one, appends only unseen queries and stops at the limit")
 
 	sx := symx.New(c.P.IsRepoFunc)
@@ -444,6 +444,7 @@ func c16RoundTrip(c *Ctx) {
 			}
 		}
 		r.Floor("O-4", "marshal calls in Save", n, 1)
+		c16SaveWrites(c, save)
 	}
 	if r.Anchor("O-4", "history.(*SearchHistory).Load", loadFn != nil) {
 		n := 0
@@ -487,6 +488,29 @@ func c16Views(c *Ctx, sx *symx.Ctx) {
 				loop = &l
 				break
 			}
+		}
+		if loop == nil {
+			// the tally is built by a method of the history called on the same receiver
+			ssau.ForEachInstr(fn, false, func(in ssa.Instruction) {
+				call, ok := in.(*ssa.Call)
+				if !ok || loop != nil {
+					return
+				}
+				g := call.Common().StaticCallee()
+				if g == nil || g.Blocks == nil || g.Signature.Recv() == nil || ssau.NamedOf(g.Signature.Recv().Type()) != histType || len(call.Common().Args) == 0 || call.Common().Args[0] != ssa.Value(fn.Params[0]) {
+					return
+				}
+				for _, l := range ssau.RangeLoops(g) {
+					l := l
+					if l.Over == nil || l.IsMap {
+						continue
+					}
+					if _, ok := histFieldLoad(l.Over, "Entries"); ok {
+						loop, fn = &l, g
+						return
+					}
+				}
+			})
 		}
 		if loop == nil {
 			r.Bad("O-5", fk+"#range-entries", c.P.Pos(fn.Pos()), "no range loop over Entries found")
